@@ -966,6 +966,12 @@ class Interp:
             if c3:
                 cands = c3
         if len(cands) > 1:
+            # free functions printed with a (partial) module path: the candidate whose full name ends with it
+            plain = re.sub(r"::<.*>$", "", name)
+            c4 = [f for f in cands if f.name == plain or f.name.endswith("::" + plain)]
+            if len(c4) == 1:
+                cands = c4
+        if len(cands) > 1:
             # exact (non-wildcard) matches win over generic ones
             exact = [f for f in cands if all(norm_ty(pt) == norm_ty(a.ty) or
                                              re.sub(r"^&(mut )?", "&", norm_ty(pt)) == re.sub(r"^&(mut )?", "&", norm_ty(a.ty))
